@@ -181,13 +181,13 @@ package leader
 
 //@ iface KeyValue.Create(key, value, opts)
 //@   requires C01.key_is_group: key == e.key
-//@   requires C06+C07+C10.record_lease_is_the_configured_ttl: eachDuration(opts, e.cfg.TTL)
+//@   requires C06+C07+C10+C02+C03.record_lease_is_the_configured_ttl: eachDuration(opts, e.cfg.TTL)
 //@   requires C01+C05+C02+C10.create_payload: IDOf(value) == e.cfg.InstanceID && PrioOf(value) == e.cfg.Priority && FreshTok(TokenOf(value)) && ParseOK(value)
 //@   assumes result1 == nil ==> Own(result0) && result0 > 0 && PubTok(result0) == TokenOf(value) && PubID(result0) == IDOf(value) && OwnTok(TokenOf(value))
 
 //@ iface KeyValue.Update(key, value, rev, opts)
 //@   requires C01.key_is_group: key == e.key
-//@   requires C06+C07+C10.record_lease_is_the_configured_ttl: eachDuration(opts, e.cfg.TTL)
+//@   requires C06+C07+C10+C02+C03.record_lease_is_the_configured_ttl: eachDuration(opts, e.cfg.TTL)
 //@   requires C01+C10+C05+C07+C13+C02.update_is_refresh_or_takeover: Refresh(e, value, rev) || Takeover(e, value, rev)
 //@   assumes result1 == nil ==> Own(result0) && result0 > rev && PubTok(result0) == TokenOf(value) && PubID(result0) == IDOf(value) && OwnTok(TokenOf(value))
 
@@ -519,13 +519,14 @@ package leader
 //@   loop 0 invariant C17.round_shape: 0 <= $v && $v <= 3 && attempts == $v && jitterWaited && jitterArmed && (attempts == 0 || waitedSince) && !bfCalled && (attempts > 0 ==> lastErrNonNil)
 
 //@ func (e *kvElection) attemptAcquire()
-//@   tags C01 C05 C10 C02 C13
+//@   tags C01 C05 C10 C02 C13 C06
 //@   ghost tokDrawn Bool = false
 //@   ghost myTok Int = 0
 //@   on call uuid.String as c set myTok = c.result
 //@   on call uuid.String as c set tokDrawn = c.random
 //@   on call KeyValue.Create as c assert C05.fresh_token_per_attempt: tokDrawn && TokenOf(c.value) == myTok
 //@   on call attemptPriorityTakeover assert C10+C01.gate: e.cfg.AllowPriorityTakeover
+//@   on select as s assert C06.a_round_waits_for_nothing_but_the_store: !s.blocking
 //@   ghost createRefused Bool = false
 //@   on ret KeyValue.Create as r set createRefused = r.result1 != nil
 //@   ensures C10.refused_create_leads_to_the_takeover_check: createRefused && e.cfg.AllowPriorityTakeover ==> calls(attemptPriorityTakeover) == 1
